@@ -327,7 +327,8 @@ Proof.
   unfold decode_utt. intros Ha Hb.
   destruct (mapM (decode_char m) a) as [la|ea] eqn:Ea; cbn [bind] in Ha; [|discriminate].
   destruct (mapM (decode_char m) b) as [lb|eb] eqn:Eb; cbn [bind] in Hb; [|discriminate].
-  pose proof (mapM_app _ _ _ _ _ Ea Eb) as Q. rewrite Q. cbn [bind]. rewrite concat_app. congruence.
+  assert (Q : mapM (decode_char m) (a ++ b) = Ok (la ++ lb)) by (now apply mapM_app).
+  rewrite Q. cbn [bind]. rewrite concat_app. congruence.
 Qed.
 
 Lemma decode_utt_raise (m : list (str * N)) (s : str) (e : exn) :
@@ -381,7 +382,7 @@ Proof.
   exists gu. split; [exact Hgu|]. split; [|split].
   - clear - HF Hne. induction HF as [|g gc gu ge Hg _ IH]; [constructor|].
     inversion Hne; subst. constructor; [|now apply IH].
-    intros ->. inversion Hg; subst. congruence.
+    intros ->. inversion Hg; subst. match goal with H : [] <> [] |- _ => exact (H eq_refl) end.
   - clear - HF. induction HF; constructor; [now apply mapM_Forall2|assumption].
   - now apply decode_groups.
 Qed.
@@ -526,15 +527,15 @@ Proof.
     { destruct lens as [|[|[|n]] r]; cbn [existsb] in Ex; try discriminate.
       - destruct (mapM (repair text) (combine b (0 :: r))) as [bb|e] eqn:Er; cbn [bind] in H; [|discriminate].
         destruct (strictly_sorted bb) eqn:Es; [|discriminate]. inversion H; subst.
-        exists b'. repeat split; try reflexivity.
-        apply mapM_Forall2 in Er. inversion HF as [|bi ? b0 ? Hl Hr]; subst.
-        cbn [combine] in Er. inversion Er as [|? y ? ys Hy Hys]; subst.
+        exists b'. split; [reflexivity|]. split; [exact Es|]. split; [reflexivity|].
+        pose proof (proj1 (mapM_Forall2 _ _ _) Er) as Er'. inversion HF as [|bi ? b0 ? Hl Hr]; subst.
+        cbn [combine] in Er'. inversion Er' as [|? y ? ys Hy Hys]; subst.
         destruct (repair_spec text bi 0 y Hl Hy) as (_ & _ & Hsame). cbn [hd]. apply Hsame. lia.
       - destruct (mapM (repair text) (combine b (S (S n) :: r))) as [bb|e] eqn:Er; cbn [bind] in H; [|discriminate].
         destruct (strictly_sorted bb) eqn:Es; [|discriminate]. inversion H; subst.
-        exists b'. repeat split; try reflexivity.
-        apply mapM_Forall2 in Er. inversion HF as [|bi ? b0 ? Hl Hr]; subst.
-        cbn [combine] in Er. inversion Er as [|? y ? ys Hy Hys]; subst.
+        exists b'. split; [reflexivity|]. split; [exact Es|]. split; [reflexivity|].
+        pose proof (proj1 (mapM_Forall2 _ _ _) Er) as Er'. inversion HF as [|bi ? b0 ? Hl Hr]; subst.
+        cbn [combine] in Er'. inversion Er' as [|? y ? ys Hy Hys]; subst.
         destruct (repair_spec text bi (S (S n)) y Hl Hy) as (_ & _ & Hsame). cbn [hd]. apply Hsame. lia. }
     destruct G as (bb & Er & Es & -> & Hhd).
     apply mapM_Forall2 in Er. pose proof (repair_all text b lens bb HF Er) as HR.
@@ -587,3 +588,479 @@ Proof.
   rewrite El. cbn [bind]. pose proof (proj1 (mapM_Forall2 _ _ _) El) as HF.
   rewrite (proj2 (no_one_lines text b lens HF) H). reflexivity.
 Qed.
+
+(* ================================================================== *)
+(** * 4. What is handed to the program *)
+
+Lemma strictly_sorted_incr (l : list nat) : strictly_sorted l = true -> incr l.
+Proof.
+  induction l as [|x r IH]; [intros _; exact I|].
+  destruct r as [|y r'].
+  - intros _. split; exact I.
+  - rewrite strictly_sorted_cons. intros H. apply andb_prop in H. destruct H as [H1 H2].
+    apply Nat.ltb_lt in H1.
+    change (incr (x :: y :: r')) with (x <= y /\ incr (y :: r')).
+    split; [lia|]. now apply IH.
+Qed.
+
+Lemma default_bounds_in_range (n k : nat) :
+  1 <= k -> k <= n -> Forall (fun i : nat => i < n) (default_bounds n k).
+Proof.
+  intros H1 H2. apply Forall_forall. intros x Hx.
+  destruct (In_nth _ _ 0 Hx) as [i [Hi <-]]. rewrite default_bounds_length in Hi.
+  now apply default_bounds_lt.
+Qed.
+
+(* the repaired default boundaries are still legal fold boundaries *)
+Lemma bugfix_valid (text : list str) (n k : nat) (b : list nat) :
+  2 <= k -> k <= n -> bugfix text (default_bounds n k) = Ok b -> valid_bounds b.
+Proof.
+  intros Hk Hn H. destruct (bugfix_ok _ _ _ H) as (lens & _ & Hlen & Hs & Hid & _ & _ & Hhd).
+  destruct (existsb (Nat.eqb 1) lens) eqn:E.
+  - split; [|split].
+    + rewrite Hlen, default_bounds_length. lia.
+    + rewrite Hhd. apply default_bounds_hd. lia.
+    + apply strictly_sorted_incr. now apply Hs.
+  - rewrite (Hid eq_refl). now apply default_bounds_valid.
+Qed.
+
+Lemma folds_of_inv (text order : list str) (nfolds : Z)
+      (folds : list (list str)) (index : list nat) (m : list (str * N)) :
+  folds_of text order nfolds = Ok (folds, index, m) ->
+  m = unicode_mapping order /\
+  exists (utext : list str) (b : list nat),
+    mapM (encode_utt m) text = Ok utext /\
+    (1 <= nfolds)%Z /\ (nfolds <= Z.of_nat (length utext))%Z /\
+    bugfix utext (default_bounds (length utext) (Z.to_nat nfolds)) = Ok b /\
+    ((nfolds = 1%Z /\ folds = [utext] /\ index = [0]) \/
+     ((2 <= nfolds)%Z /\ valid_bounds b /\
+      folds = fst (fold_spec utext b) /\ index = snd (fold_spec utext b))).
+Proof.
+  unfold folds_of. intros H.
+  destruct (mapM (encode_utt (unicode_mapping order)) text) as [utext|e] eqn:Eu;
+    cbn [bind] in H; [|discriminate].
+  destruct (Z_lt_le_dec nfolds 1) as [Hlt|Hge];
+    [rewrite boundaries_err in H by lia; discriminate|].
+  destruct (Z_lt_le_dec (Z.of_nat (length utext)) nfolds) as [Hlt|Hle];
+    [rewrite boundaries_err in H by lia; discriminate|].
+  rewrite boundaries_ok in H by lia. cbn [bind] in H.
+  set (b0 := default_bounds (length utext) (Z.to_nat nfolds)) in *.
+  destruct (bugfix utext b0) as [b|e] eqn:Eb; cbn [bind] in H; [|discriminate].
+  destruct (Z.eq_dec nfolds 1) as [E1|Hne].
+  - subst nfolds. rewrite fold_one_fold in H. cbn [bind fst snd] in H. inversion H; subst.
+    split; [reflexivity|]. exists utext, b. repeat split; try assumption. left. now repeat split.
+  - assert (Hv : valid_bounds b) by (apply (bugfix_valid utext (length utext) (Z.to_nat nfolds)); [lia|lia|exact Eb]).
+    unfold fold in H. destruct (Z.eqb_spec nfolds 1) as [|_]; [contradiction|].
+    rewrite (fold_with_ok utext b Hv) in H. cbn [bind] in H. inversion H; subst.
+    split; [reflexivity|]. exists utext, b. repeat split; try assumption. right.
+    repeat split; try lia; apply Hv.
+Qed.
+
+(* Every fold handed to dpseg is non-empty and its first line does not have
+   exactly one symbol.  This holds for every nfolds for which folds_of returns,
+   including nfolds = 1: then boundaries = [0], and bugfix raises ValueError
+   when text[0] has exactly one symbol. *)
+Theorem folds_start_long : forall (text order : list str) (nfolds : Z)
+    (folds : list (list str)) (index : list nat) (m : list (str * N)),
+  folds_of text order nfolds = Ok (folds, index, m) ->
+  Forall (fun f : list str => exists (l : str) (r : list str), f = l :: r /\ length l <> 1) folds.
+Proof.
+  intros text order nfolds folds index m H.
+  destruct (folds_of_inv _ _ _ _ _ _ H) as (_ & utext & b & _ & H1 & H2 & Hb & Hcase).
+  destruct (bugfix_ok _ _ _ Hb) as (lens & _ & Hlen & _ & _ & Hall & _ & Hhd).
+  assert (Hstart : forall c : nat, In c b ->
+            exists (l : str) (r : list str), skipn c utext ++ firstn c utext = l :: r /\ length l <> 1).
+  { intros c Hc. rewrite Forall_forall in Hall. destruct (Hall c Hc) as [l [Hn Hl]].
+    rewrite (nth_error_skipn_cons c utext l Hn). cbn [app]. eauto. }
+  destruct Hcase as [(-> & -> & ->)|(Hk & Hv & -> & ->)].
+  - constructor; [|constructor].
+    assert (Hin : In 0 b).
+    { rewrite default_bounds_length in Hlen. rewrite default_bounds_hd in Hhd by lia.
+      destruct b as [|x b]; [discriminate|]. cbn [hd] in Hhd. subst. now left. }
+    destruct (Hstart 0 Hin) as (l & r & E & Hl). cbn [skipn firstn] in E.
+    rewrite app_nil_r in E. eauto.
+  - apply Forall_forall. intros f Hf. destruct (In_nth _ _ [] Hf) as [i [Hi <-]].
+    destruct (fold_count utext b Hv) as [Hc _]. rewrite Hc in Hi.
+    rewrite (fold_rotation utext b i Hv Hi). apply Hstart.
+    destruct Hv as (Hl2 & Hh & _). unfold cut. destruct (Nat.eqb_spec i 0) as [->|Hi0].
+    + destruct b as [|x b]; [cbn [length] in Hl2; lia|]. cbn [hd] in Hh. subst. now left.
+    + apply nth_In. lia.
+Qed.
+
+(* with no blank line in the input, "not exactly one symbol" is "at least two" *)
+Lemma encode_utt_length (m : list (str * N)) (u e : str) :
+  encode_utt m u = Ok e -> length e = length (split_ws u).
+Proof. intros H. apply mapM_Forall2 in H. symmetry. exact (Forall2_length_ _ _ _ H). Qed.
+
+(* ================================================================== *)
+(** * 5. Conservation through the pipeline, under the program's contract *)
+
+(* s is the line l with single U+0020 inserted between some of its symbols *)
+Definition seg_line (l s : str) : Prop :=
+  exists groups : list str,
+    concat groups = l /\ Forall (fun g : str => g <> []) groups /\ s = join [sp] groups.
+
+(* what one dpseg run prints for a fold, read back with .split('\n'): one
+   segmented line per input line, then the empty string after the last newline *)
+Definition contract (fold out : list str) : Prop :=
+  exists segs : list str, out = segs ++ [[]] /\ Forall2 seg_line fold segs.
+
+Definition nonempty_b (s : str) : bool := match s with [] => false | _ => true end.
+
+Definition pad (s : list str) : list str := s ++ [[]].
+
+Lemma contract_pad (folds outputs : list (list str)) :
+  Forall2 contract folds outputs ->
+  exists segss : list (list str), outputs = map pad segss /\ Forall2 (Forall2 seg_line) folds segss.
+Proof.
+  induction 1 as [|f o folds outputs (segs & -> & Hs) _ (segss & -> & IH)].
+  - exists []. split; [reflexivity|constructor].
+  - exists (segs :: segss). split; [reflexivity|now constructor].
+Qed.
+
+(* x' is x followed by empty strings only *)
+Definition pad_rel (x x' : list str) : Prop :=
+  exists zs : list str, x' = x ++ zs /\ Forall (fun z : str => z = []) zs.
+
+Lemma Forall_skipn_nil (n : nat) (zs : list str) :
+  Forall (fun z : str => z = []) zs -> Forall (fun z : str => z = []) (skipn n zs).
+Proof.
+  revert zs; induction n as [|n IH]; intros zs H; [exact H|].
+  destruct zs as [|z zs]; [constructor|]. cbn [skipn]. apply IH. now inversion H.
+Qed.
+
+Lemma last_blocks_padded (segss : list (list str)) (index : list nat) (lb : list (list str)) :
+  last_blocks segss index = Ok lb ->
+  exists lb' : list (list str),
+    last_blocks (map pad segss) index = Ok lb' /\ Forall2 pad_rel lb lb'.
+Proof.
+  revert index lb; induction segss as [|s segss IH]; intros index lb H.
+  - cbn [last_blocks] in H. inversion H; subst. exists []. split; [reflexivity|constructor].
+  - destruct index as [|i index]; [discriminate|]. cbn [last_blocks] in H.
+    destruct (last_blocks segss index) as [r|e] eqn:E; cbn [bind] in H; [|discriminate].
+    inversion H; subst. destruct (IH index r E) as (r' & Hr' & HR).
+    exists (skipn i (pad s) :: r'). split.
+    + cbn [map last_blocks]. rewrite Hr'. reflexivity.
+    + constructor; [|exact HR]. unfold pad. rewrite skipn_app.
+      exists (skipn (i - length s) [[]]). split; [reflexivity|].
+      apply Forall_skipn_nil. constructor; [reflexivity|constructor].
+Qed.
+
+Lemma last_blocks_raise {A : Type} (fs : list (list A)) (index : list nat) (e : exn) :
+  last_blocks fs index = Raise e -> e = IndexError.
+Proof.
+  revert index; induction fs as [|f fs IH]; intros index H; [discriminate|].
+  destruct index as [|i index]; cbn [last_blocks] in H; [now inversion H|].
+  destruct (last_blocks fs index) as [r|e'] eqn:E; cbn [bind] in H; [discriminate|].
+  inversion H; subst. now apply (IH index).
+Qed.
+
+Lemma filter_nil_strings (zs : list str) :
+  Forall (fun z : str => z = []) zs -> filter nonempty_b zs = [].
+Proof.
+  induction 1 as [|z zs -> _ IH]; [reflexivity|]. cbn [filter nonempty_b]. exact IH.
+Qed.
+
+(* decoding the padded lines and dropping empty results = decoding the lines *)
+Lemma pad_forward (d : str -> result str) (L L' : list (list str)) (dec0 : list str) :
+  d [] = Ok [] -> Forall2 pad_rel L L' -> mapM d (concat L) = Ok dec0 ->
+  exists dec' : list str,
+    mapM d (concat L') = Ok dec' /\ filter nonempty_b dec' = filter nonempty_b dec0.
+Proof.
+  intros Hd H; revert dec0; induction H as [|x x' L L' (zs & -> & Hz) _ IH]; intros dec0 Hm.
+  - cbn [concat mapM] in *. inversion Hm; subst. now exists [].
+  - cbn [concat] in Hm. apply mapM_app_inv in Hm. destruct Hm as (r1 & r2 & -> & Hr1 & Hr2).
+    destruct (IH r2 Hr2) as (d2 & Hd2 & Hf2).
+    assert (Hzs : exists rz : list str, mapM d zs = Ok rz /\ Forall (fun z : str => z = []) rz).
+    { clear - Hd Hz. induction Hz as [|z zs -> _ (rz & Hrz & Hall)].
+      - exists []. split; [reflexivity|constructor].
+      - exists ([] :: rz). split; [|now constructor]. cbn [mapM]. rewrite Hd. cbn [bind].
+        rewrite Hrz. reflexivity. }
+    destruct Hzs as (rz & Hrz & Hall).
+    exists ((r1 ++ rz) ++ d2). split.
+    + cbn [concat]. apply mapM_app; [now apply mapM_app|exact Hd2].
+    + rewrite !filter_app, (filter_nil_strings rz Hall), app_nil_r. now rewrite Hf2.
+Qed.
+
+Lemma is_seg_nonnil (units : list str) (out : str) :
+  is_seg units out -> units <> [] -> Forall (fun u : str => u <> []) units -> out <> [].
+Proof.
+  intros (groups & Hc & Hne & ->) Hu Hall.
+  destruct groups as [|g groups]; [cbn [concat] in Hc; congruence|].
+  inversion Hne as [|? ? Hg _]; subst. destruct g as [|u g]; [congruence|].
+  cbn [concat app] in Hall. inversion Hall as [|? ? Hu0 _]; subst.
+  destruct u as [|c u]; [congruence|].
+  cbn [map concat app]. destruct (map (@concat char) groups); cbn [join app]; discriminate.
+Qed.
+
+Lemma split_ws_go_nonnil (s acc : str) : Forall (fun u : str => u <> []) (split_ws_go s acc).
+Proof.
+  revert acc; induction s as [|c s IH]; intros acc; cbn [split_ws_go].
+  - destruct acc as [|a acc]; [constructor|]. constructor; [|constructor].
+    intros E. apply (f_equal (@rev char)) in E. rewrite rev_involutive in E. discriminate.
+  - destruct (is_space c).
+    + destruct acc as [|a acc]; [apply IH|]. constructor; [|apply IH].
+      intros E. apply (f_equal (@rev char)) in E. rewrite rev_involutive in E. discriminate.
+    + apply IH.
+Qed.
+
+Lemma split_ws_nonnil (s : str) : Forall (fun u : str => u <> []) (split_ws s).
+Proof. apply split_ws_go_nonnil. Qed.
+
+(* line by line: a contract-abiding output line decodes to a segmentation *)
+Lemma decode_lines (m : list (str * N)) (text utext o : list str) :
+  good_map m ->
+  Forall2 (fun u e : str => encode_utt m u = Ok e) text utext ->
+  Forall2 seg_line utext o ->
+  exists dec0 : list str,
+    mapM (decode_utt m) o = Ok dec0 /\ aligned (map split_ws text) dec0.
+Proof.
+  intros Hm H; revert o; induction H as [|u e text utext Hu _ IH]; intros o Ho.
+  - inversion Ho; subst. exists []. split; [reflexivity|constructor].
+  - inversion Ho as [|? s ? o' Hs Ho']; subst.
+    destruct (IH o' Ho') as (dec & Hdec & Hal).
+    destruct Hs as (groups & Hc & Hne & ->).
+    destruct (decode_of_grouping_seg m (split_ws u) e groups Hm Hu Hc Hne) as (out & Hout & Hseg).
+    exists (out :: dec). split.
+    + cbn [mapM]. rewrite Hout. cbn [bind]. rewrite Hdec. reflexivity.
+    + cbn [map]. constructor; assumption.
+Qed.
+
+Lemma aligned_filter (text : list str) (dec : list str) :
+  Forall (fun u : str => split_ws u <> []) text ->
+  aligned (map split_ws text) dec -> filter nonempty_b dec = dec.
+Proof.
+  intros Hnb H. remember (map split_ws text) as units eqn:E. revert text E Hnb.
+  induction H as [|us d units dec Hseg _ IH]; intros text E Hnb; [reflexivity|].
+  destruct text as [|u text]; [discriminate|]. cbn [map] in E. inversion E; subst.
+  inversion Hnb as [|? ? Hu Hnb']; subst. cbn [filter].
+  assert (Hd : d <> []) by (apply (is_seg_nonnil (split_ws u) d Hseg Hu), split_ws_nonnil).
+  destruct d as [|c d]; [congruence|]. cbn [nonempty_b]. f_equal. now apply (IH text).
+Qed.
+
+(* the common end of the pipeline *)
+Lemma pipeline_end (m : list (str * N)) (text utext : list str)
+      (segss : list (list str)) (index : list nat) (o : list str) :
+  good_map m ->
+  Forall2 (fun u e : str => encode_utt m u = Ok e) text utext ->
+  unfold segss index = Ok o -> Forall2 seg_line utext o ->
+  exists dec0 : list str,
+    (do un <- unfold (map pad segss) index;
+     do dec <- mapM (decode_utt m) un;
+     Ok (filter nonempty_b dec)) = Ok (filter nonempty_b dec0) /\
+    aligned (map split_ws text) dec0.
+Proof.
+  intros Hm Henc Hun Ho.
+  destruct (decode_lines m text utext o Hm Henc Ho) as (dec0 & Hdec0 & Hal).
+  exists dec0. split; [|exact Hal].
+  unfold unfold in *.
+  destruct (last_blocks segss index) as [lb|e] eqn:Elb; cbn [bind] in Hun; [|discriminate].
+  inversion Hun; subst o.
+  destruct (last_blocks_padded segss index lb Elb) as (lb' & Hlb' & HR).
+  rewrite Hlb'. cbn [bind].
+  destruct (pad_forward (decode_utt m) (rev lb) (rev lb') dec0 (decode_utt_nil m)
+              (Forall2_rev _ _ _ HR) Hdec0) as (dec' & Hdec' & Hf).
+  rewrite Hdec'. cbn [bind]. now rewrite Hf.
+Qed.
+
+Lemma Forall2_singleton {A B : Type} (R : A -> B -> Prop) (x : A) (l : list B) :
+  Forall2 R [x] l -> exists y : B, l = [y] /\ R x y.
+Proof.
+  intros H. inversion H as [|? y ? l' Hy Hl]; subst. inversion Hl; subst. now exists y.
+Qed.
+
+(* Under the contract the wrapper never raises after the folds were built, and
+   returns, line for line, the input with spaces added at unit boundaries.
+   [dec0] are the decoded lines before the final filter. *)
+Theorem dpseg_pipeline_ok : forall (text order : list str) (nfolds : Z)
+    (outputs folds : list (list str)) (index : list nat) (m : list (str * N)),
+  folds_of text order nfolds = Ok (folds, index, m) ->
+  Forall2 contract folds outputs ->
+  exists dec0 : list str,
+    segment_from_outputs text order nfolds outputs = Ok (filter nonempty_b dec0) /\
+    aligned (map split_ws text) dec0.
+Proof.
+  intros text order nfolds outputs folds index m Hf Hc.
+  unfold segment_from_outputs. rewrite Hf. cbn [bind].
+  destruct (folds_of_inv _ _ _ _ _ _ Hf) as (Em & utext & b & Hu & H1 & H2 & Hb & Hcase).
+  assert (Hm : good_map m) by (subst m; apply unicode_mapping_good).
+  apply mapM_Forall2 in Hu.
+  destruct (contract_pad folds outputs Hc) as (segss & -> & HF).
+  change (fun s : str => match s with [] => false | _ :: _ => true end) with nonempty_b.
+  destruct Hcase as [(-> & -> & ->)|(Hk & Hv & -> & ->)].
+  - destruct (Forall2_singleton _ _ _ HF) as (segs & -> & Hs).
+    apply (pipeline_end m text utext [segs] [0] segs Hm Hu); [apply unfold_single|exact Hs].
+  - destruct (unfold_transformed seg_line utext b segss Hv HF) as (o & Ho & HR).
+    now apply (pipeline_end m text utext segss _ o Hm Hu).
+Qed.
+
+Theorem dpseg_pipeline_aligned : forall (text order : list str) (nfolds : Z)
+    (outputs : list (list str)) (out : list str)
+    (folds : list (list str)) (index : list nat) (m : list (str * N)),
+  Forall (fun u : str => split_ws u <> []) text ->
+  folds_of text order nfolds = Ok (folds, index, m) ->
+  Forall2 contract folds outputs ->
+  segment_from_outputs text order nfolds outputs = Ok out ->
+  aligned (map split_ws text) out.
+Proof.
+  intros text order nfolds outputs out folds index m Hnb Hf Hc Hs.
+  destruct (dpseg_pipeline_ok text order nfolds outputs folds index m Hf Hc) as (dec0 & Hs' & Hal).
+  rewrite Hs' in Hs. inversion Hs; subst.
+  now rewrite (aligned_filter text dec0 Hnb Hal).
+Qed.
+
+(* ---------- errors ---------- *)
+
+(* Building the folds raises only ValueError (bad nfolds, or a one-symbol line
+   that cannot be repaired) or KeyError (a unit that is not in the mapping);
+   IndexError / AssertionError of folding.fold are unreachable. *)
+Theorem folds_of_errors : forall (text order : list str) (nfolds : Z) (e : exn),
+  folds_of text order nfolds = Raise e ->
+  e = ValueError \/
+  (e = KeyError /\ exists u w : str, In u text /\ In w (split_ws u) /\ ~ In w order).
+Proof.
+  intros text order nfolds e. unfold folds_of. intros H.
+  destruct (mapM (encode_utt (unicode_mapping order)) text) as [utext|e'] eqn:Eu; cbn [bind] in H.
+  - left.
+    destruct (Z_lt_le_dec nfolds 1) as [Hlt|Hge];
+      [rewrite boundaries_err in H by lia; now inversion H|].
+    destruct (Z_lt_le_dec (Z.of_nat (length utext)) nfolds) as [Hlt|Hle];
+      [rewrite boundaries_err in H by lia; now inversion H|].
+    rewrite boundaries_ok in H by lia. cbn [bind] in H.
+    set (b0 := default_bounds (length utext) (Z.to_nat nfolds)) in *.
+    destruct (bugfix utext b0) as [b|e'] eqn:Eb; cbn [bind] in H.
+    + exfalso. destruct (Z.eq_dec nfolds 1) as [E1|Hne].
+      * subst nfolds. rewrite fold_one_fold in H. discriminate.
+      * assert (Hv : valid_bounds b)
+          by (apply (bugfix_valid utext (length utext) (Z.to_nat nfolds)); [lia|lia|exact Eb]).
+        unfold fold in H. destruct (Z.eqb_spec nfolds 1) as [|_]; [contradiction|].
+        rewrite (fold_with_ok utext b Hv) in H. discriminate.
+    + inversion H; subst. apply (bugfix_only_value_error utext b0 e Eb).
+      apply default_bounds_in_range; lia.
+  - inversion H; subst. right. apply mapM_raise in Eu. destruct Eu as (u & Hu & Hr).
+    unfold encode_utt in Hr. apply mapM_raise in Hr. destruct Hr as (w & Hw & Hr).
+    apply lookup_raise in Hr. destruct Hr as [-> Hn]. rewrite unicode_mapping_keys in Hn.
+    split; [reflexivity|]. now exists u, w.
+Qed.
+
+Corollary folds_of_errors_in_order : forall (text order : list str) (nfolds : Z) (e : exn),
+  Forall (fun u : str => Forall (fun w : str => In w order) (split_ws u)) text ->
+  folds_of text order nfolds = Raise e -> e = ValueError.
+Proof.
+  intros text order nfolds e Hall H.
+  destruct (folds_of_errors _ _ _ _ H) as [E|(_ & u & w & Hu & Hw & Hn)]; [exact E|].
+  exfalso. apply Hn. rewrite Forall_forall in Hall. specialize (Hall u Hu).
+  rewrite Forall_forall in Hall. now apply Hall.
+Qed.
+
+(* whatever the program printed *)
+Theorem dpseg_pipeline_errors : forall (text order : list str) (nfolds : Z)
+    (outputs : list (list str)) (e : exn),
+  segment_from_outputs text order nfolds outputs = Raise e ->
+  e = ValueError \/ e = KeyError \/ e = IndexError.
+Proof.
+  intros text order nfolds outputs e. unfold segment_from_outputs. intros H.
+  destruct (folds_of text order nfolds) as [[[folds index] m]|e'] eqn:Ef; cbn [bind] in H.
+  - unfold unfold in H.
+    destruct (last_blocks outputs index) as [lb|e'] eqn:El; cbn [bind] in H.
+    + destruct (mapM (decode_utt m) (concat (rev lb))) as [dec|e'] eqn:Ed; cbn [bind] in H;
+        [discriminate|].
+      inversion H; subst. apply mapM_raise in Ed. destruct Ed as (s & _ & Hs).
+      apply decode_utt_raise in Hs. auto.
+    + inversion H; subst. apply last_blocks_raise in El. auto.
+  - inversion H; subst. destruct (folds_of_errors _ _ _ _ Ef) as [->|[-> _]]; auto.
+Qed.
+
+(* under the contract, with every unit in the mapping: only ValueError, raised
+   before the program is run (boundaries / _dpseg_bugfix) *)
+Theorem dpseg_pipeline_errors_contract : forall (text order : list str) (nfolds : Z)
+    (outputs : list (list str)) (e : exn),
+  Forall (fun u : str => Forall (fun w : str => In w order) (split_ws u)) text ->
+  (forall (folds : list (list str)) (index : list nat) (m : list (str * N)),
+     folds_of text order nfolds = Ok (folds, index, m) -> Forall2 contract folds outputs) ->
+  segment_from_outputs text order nfolds outputs = Raise e ->
+  e = ValueError /\ folds_of text order nfolds = Raise ValueError.
+Proof.
+  intros text order nfolds outputs e Hall Hc H.
+  destruct (folds_of text order nfolds) as [[[folds index] m]|e'] eqn:Ef.
+  - destruct (dpseg_pipeline_ok text order nfolds outputs folds index m Ef (Hc _ _ _ eq_refl))
+      as (dec0 & Hs & _). rewrite Hs in H. discriminate.
+  - assert (e' = ValueError) by (now apply (folds_of_errors_in_order text order nfolds)).
+    subst e'. unfold segment_from_outputs in H. rewrite Ef in H. cbn [bind] in H.
+    inversion H. now split.
+Qed.
+
+(* the exact statement requested for C03, with its (redundant) hypotheses *)
+Corollary dpseg_pipeline_aligned_C03 : forall (text order : list str) (nfolds : Z)
+    (outputs : list (list str)) (out : list str)
+    (folds : list (list str)) (index : list nat) (m : list (str * N)),
+  NoDup order ->
+  Forall (fun u : str => Forall (fun w : str => In w order) (split_ws u)) text ->
+  Forall (fun u : str => split_ws u <> []) text ->
+  folds_of text order nfolds = Ok (folds, index, m) ->
+  Forall2 contract folds outputs ->
+  segment_from_outputs text order nfolds outputs = Ok out ->
+  aligned (map split_ws text) out.
+Proof.
+  intros text order nfolds outputs out folds index m _ _.
+  apply dpseg_pipeline_aligned.
+Qed.
+
+(* the first line of every fold has at least two symbols when no line is blank *)
+Corollary folds_start_two : forall (text order : list str) (nfolds : Z)
+    (folds : list (list str)) (index : list nat) (m : list (str * N)),
+  Forall (fun u : str => split_ws u <> []) text ->
+  folds_of text order nfolds = Ok (folds, index, m) ->
+  Forall (fun f : list str => exists (l : str) (r : list str), f = l :: r /\ 2 <= length l) folds.
+Proof.
+  intros text order nfolds folds index m Hnb H.
+  pose proof (folds_start_long _ _ _ _ _ _ H) as Hl.
+  destruct (folds_of_inv _ _ _ _ _ _ H) as (_ & utext & b & Hu & _ & _ & _ & Hcase).
+  apply mapM_Forall2 in Hu.
+  assert (Hpos : Forall (fun e : str => e <> []) utext).
+  { clear - Hu Hnb. induction Hu as [|u e text utext He _ IH]; [constructor|].
+    inversion Hnb; subst. constructor; [|now apply IH].
+    intros ->. apply encode_utt_length in He. cbn [length] in He.
+    destruct (split_ws u); [congruence|discriminate]. }
+  assert (Hin : forall f : list str, In f folds -> forall l : str, In l f -> In l utext).
+  { destruct Hcase as [(-> & -> & ->)|(Hk & Hv & -> & ->)].
+    - intros f [<-|[]] l Hl0. exact Hl0.
+    - intros f Hf l Hl0. destruct (In_nth _ _ [] Hf) as [i [Hi <-]].
+      destruct (fold_count utext b Hv) as [Hc _]. rewrite Hc in Hi.
+      rewrite (fold_rotation utext b i Hv Hi) in Hl0. apply in_app_or in Hl0.
+      rewrite <- (firstn_skipn (cut utext b i) utext). apply in_or_app. tauto. }
+  apply Forall_forall. intros f Hf. rewrite Forall_forall in Hl.
+  destruct (Hl f Hf) as (l & r & -> & Hlen). exists l, r. split; [reflexivity|].
+  assert (Hl0 : In l utext) by (apply (Hin _ Hf); now left).
+  rewrite Forall_forall in Hpos. specialize (Hpos l Hl0).
+  destruct l as [|c [|c2 l]]; cbn [length] in *; [congruence|lia|lia].
+Qed.
+
+(* ---------- complement to part 1: only whitespace is skipped ---------- *)
+
+Definition nc_first (idx : N) : bool :=
+  let c := fst (next_char idx) in forallN (fun j : N => is_space (idx + j)%N) (c - idx)%N.
+
+Lemma nc_first_small : forallN nc_first 12289 = true.
+Proof. vm_compute. reflexivity. Qed.
+
+(* next_char returns the first non-whitespace code point from idx on *)
+Theorem next_char_first : forall idx j : N,
+  (idx <= j)%N -> (j < fst (next_char idx))%N -> is_space j = true.
+Proof.
+  intros idx j H1 H2. destruct (N.lt_ge_cases idx 12289) as [Hlt|Hge].
+  - pose proof (forallN_spec nc_first 12289 nc_first_small idx Hlt) as H.
+    unfold nc_first in H. cbn zeta in H.
+    pose proof (forallN_spec _ _ H (j - idx)%N) as H'. cbn beta in H'.
+    replace (idx + (j - idx))%N with j in H' by lia. apply H'. lia.
+  - assert (Hs : is_space idx = false).
+    { destruct (is_space idx) eqn:E; [|reflexivity]. apply is_space_le in E. lia. }
+    rewrite (next_char_nonspace idx Hs) in H2. cbn [fst] in H2. lia.
+Qed.
+
+Print Assumptions dpseg_pipeline_aligned.
+Print Assumptions next_char_first.
+Print Assumptions dpseg_pipeline_errors_contract.
+Print Assumptions folds_start_two.
+Print Assumptions bugfix_ok.
+Print Assumptions unicode_mapping_injective.
